@@ -441,7 +441,7 @@ class Body:
                 if t[0] == "agg" and e["f"] < len(t[4]) and t[1] in ("tuple", "adt", "closure"):
                     t = t[4][e["f"]]
                 else:
-                    t = ("field", t, nm if nm is not None else e["f"], e["f"])
+                    t = ("field", t, nm if nm is not None else e["f"], e["f"], e.get("adt"))
             elif isinstance(e, dict) and "idx" in e:
                 t = ("index", t, self.term_of_local(e["idx"], depth))
             elif isinstance(e, dict) and "cidx" in e:
